@@ -39,6 +39,19 @@ def range_case(draw):
     return {"start": start, "step": step, "n": n, "phi": phi, "ctor": ctor}
 
 
+@st.composite
+def tiny_step_case(draw):
+    """Axes with a very fine step: sample rates of 100 MHz and more (RF front ends, simulated signals), picosecond time bases, a
+    frequency axis of a few nano-hertz bins.  A step is valid when it is positive, however small."""
+    step = draw(st.sampled_from([1e-8, 5e-9, 4e-9, 2.5e-9, 1e-9, 2.0**-30, 2.0**-40, 1e-12, 1e-15, 1e-300, 5e-324 * 2**20]))
+    start = draw(st.sampled_from([0.0, 0.0, 0.0, 2.0**-20 if step >= 2.0**-40 else 0.0]))
+    n = draw(st.one_of(st.integers(0, 40), st.integers(0, 3000)))
+    ctor = draw(st.sampled_from(["range_dim", "time_step", "time_samplerate", "frequency", "range_dim_size"]))
+    if ctor == "time_samplerate" and not (1 / (1 / step) == step):
+        ctor = "time_step"
+    return {"start": start, "step": step, "n": n, "phi": draw(st.sampled_from([0.0, 0.0, 0.5])), "ctor": ctor}
+
+
 def make_dim(spec):
     from soundevent import arrays
 
@@ -331,6 +344,7 @@ def check_setval(spec, ctx):
 
 SUBS = [
     Sub("range_constructors", check_range, strategy=range_case, quick=12000, thorough=300000, min_nontrivial=0.2),
+    Sub("tiny_steps", check_range, strategy=tiny_step_case, quick=1500, thorough=30000, min_nontrivial=0.2),
     Sub("coord_lookup", check_lookup, strategy=lookup_case, quick=8000, thorough=200000, min_nontrivial=0.3),
     Sub("set_value_at_pos", check_setval, strategy=setval_case, quick=3000, thorough=60000, min_nontrivial=0.3),
 ]
